@@ -499,6 +499,7 @@ type Specs struct {
 	SpecFuncs   map[string]*SpecFunc
 	Lemmas      []*Lemma
 	Axioms      []*Axiom
+	Facts       []*Axiom
 	GlobalInsts map[string][]Clause
 	SharedTypes map[string]bool // type names considered shared between goroutines (C17)
 	Guarded     map[string]bool // heap keys of fields that may only be accessed under the owner's mutex
@@ -812,6 +813,14 @@ func (S *Specs) LoadFile(path string, extern bool) error {
 				return fail(err)
 			}
 			S.Axioms = append(S.Axioms, &Axiom{Src: rest, E: c.E, File: path})
+		case "fact":
+			// a quantified definition that is never asserted wholesale: it is only instantiated
+			// where an "inst" hint asks for it
+			c, err := parseClause(rest)
+			if err != nil {
+				return fail(err)
+			}
+			S.Facts = append(S.Facts, &Axiom{Src: rest, E: c.E, File: path})
 		case "lemma":
 			c, err := parseClause(rest)
 			if err != nil {
